@@ -12,7 +12,7 @@ files list it — `unmarked` (visible to `GlobalIndex::new`, index.rs `new_from_
 * `Prune`   — a running prune: its plan was computed from one read of index files + snapshots at plan time `pn`
               (`PrunePlan::from_prune_options`): `toDelete` ⊆ packs that were marked with `t + keep_delete ≤ pn` and
               hold no used blob (`decide_packs (true, 0, _)`), `toMark` = unmarked packs without used blob.
-* `Step`    — one storage-visible step of an actor or a clock tick.
+* `Step`    — one storage-visible step of an actor (backup, prune, forget) or a clock tick.
 -/
 import Rustic.Model.Repo
 namespace Rustic.Interleave
@@ -85,15 +85,29 @@ inductive Step
   | backupFinish (i : Nat) (closure : List Key)
   /-- a prune reads index + snapshots and plans (plan time = now) -/
   | pruneStart (toDelete toMark : List Nat)
-  /-- prune `j` writes its new index: planned packs become marked with time `pn`; marked packs with a used blob are
-      recovered (`Recover`) -/
+  /-- prune `j`'s rebuilt index takes effect (new index file written AND the old index files, which still list the packs
+      unmarked, removed): planned packs become marked with time `pn` and stop being visible to new index loads -/
   | pruneRewrite (j : Nat)
   /-- prune `j` removes a pack file of its plan -/
   | pruneRemove (j : Nat) (id : Nat)
   | pruneEnd (j : Nat)
+  /-- `forget`: the i-th visible snapshot file is removed (what only it used becomes unused for later plans) -/
+  | forget (i : Nat)
 deriving Repr, Inhabited
 
 def setAt {α} (l : List α) (i : Nat) (a : α) : List α := l.set i a
+
+/-- the span of `s` as a number (`none` is only used by the negative witness) -/
+def spanOf (s : St) : Nat := s.pruneSpan.getD 0
+
+/-- what `pruneRewrite` of plan `pr` does to one pack: planned unmarked packs get marked with the PLAN time, packs planned
+for deletion leave the index -/
+def rewritePack (pr : Prune) (p : PackSt) : PackSt :=
+  if pr.toMark.contains p.id && p.status == .unmarked then { p with status := .marked pr.pn }
+  else if pr.toDelete.contains p.id then { p with status := .unlisted }
+  else p
+
+def removePack (id : Nat) (p : PackSt) : PackSt := if p.id == id then { p with stored := false } else p
 
 /-- guards follow the code: a backup only relies on keys visible in the index it loaded; a plan only deletes packs
 that are `deletable` and only marks packs that are unused at plan time; the snapshot is saved while
@@ -117,7 +131,7 @@ def step (s : St) : Step → Option St
     | some b =>
       let own := s.packs.filter (fun p => b.written.contains p.id)
       if closure.all (fun k => b.relied.contains k || own.any (fun p => p.blobs.contains k))
-          && decide (s.now + (s.pruneSpan.getD 0 : Nat) < b.t0 + s.keepDelete) then
+          && decide (s.now + (spanOf s : Nat) < b.t0 + s.keepDelete) then
         some { s with snaps := closure :: s.snaps, backups := s.backups.eraseIdx i }
       else none
   | .pruneStart toDelete toMark =>
@@ -130,18 +144,16 @@ def step (s : St) : Step → Option St
     | none => none
     | some pr =>
       if !(match s.pruneSpan with | some d => decide (s.now ≤ pr.pn + (d : Nat)) | none => true) then none else
-      some { s with packs := s.packs.map (fun p =>
-        if pr.toMark.contains p.id && p.status == .unmarked then { p with status := .marked pr.pn }
-        else if pr.toDelete.contains p.id then { p with status := .unlisted }
-        else p) }
+      some { s with packs := s.packs.map (rewritePack pr) }
   | .pruneRemove j id =>
     match s.prunes[j]? with
     | none => none
     | some pr =>
       if pr.toDelete.contains id then
-        some { s with packs := s.packs.map (fun p => if p.id == id then { p with stored := false } else p) }
+        some { s with packs := s.packs.map (removePack id) }
       else none
   | .pruneEnd j => if j < s.prunes.length then some { s with prunes := s.prunes.eraseIdx j } else none
+  | .forget i => if i < s.snaps.length then some { s with snaps := s.snaps.eraseIdx i } else none
 
 def run (s : St) : List Step → Option St
   | [] => some s
@@ -149,11 +161,28 @@ def run (s : St) : List Step → Option St
     | none => none
     | some s' => run s' as
 
-/-- **nothing is lost**: every key of every visible snapshot is `kept` (since ever), every key a running backup
-relies on is `kept` since that backup's `t0`. -/
+/-- **nothing is lost**: every key of every visible snapshot is in a stored pack that the index still lists (unmarked, or
+marked — then the next prune recovers it); every key a running backup relies on is `kept` since `t0 - span` (a prune that
+planned up to `span` before the backup's index load may still mark the pack with its plan time) for as long as the backup
+is within the hypothesis `now + span < t0 + keep_delete`. -/
 def noLoss (s : St) : Bool :=
   s.snaps.all (fun c => c.all (fun k => s.packs.any (fun p => p.stored && p.blobs.contains k && p.status != .unlisted)))
-  && s.backups.all (fun b => b.relied.all (kept s b.t0))
+  && s.backups.all (fun b => !decide (s.now + (spanOf s : Nat) < b.t0 + s.keepDelete) || b.relied.all (kept s (b.t0 - (spanOf s : Nat))))
+
+/-- The follow-up prune in a quiescent state (no running actor), as one atomic step (C02 decision table): marked packs
+holding a blob some snapshot uses are recovered (`Recover`), marked unused packs that are old enough are deleted,
+unmarked unused packs are marked. -/
+def followupPrune (s : St) : St :=
+  { s with packs := s.packs.map (fun p =>
+      let used := s.snaps.any (fun c => c.any (fun k => p.blobs.contains k))
+      match p.status with
+      | .marked t => if used then { p with status := .unmarked }
+                     else if decide (t + s.keepDelete ≤ s.now) then { p with status := .unlisted, stored := false } else p
+      | .unmarked => if used then p else { p with status := .marked s.now }
+      | .unlisted => p) }
+
+/-- every key of every visible snapshot can be read through a freshly loaded index -/
+def allVisible (s : St) : Bool := s.snaps.all (fun c => c.all (visible s))
 
 /-! ### witness schedule (used by Props/C10 and replayed on the real code by `c10 slowprune`) -/
 
